@@ -19,7 +19,23 @@ pub struct Walk {
     pub pages: u32,
 }
 
+/// Labelled answers of every query endpoint (C08: identical at every pause of a sliced ingestion).
+pub fn observation_vector(network: Network, addrs: &[String]) -> (Vec<(String, String)>, String) {
+    let info = c::get_info();
+    let f: Vec<&str> = info.split(' ').collect();
+    let mut v = vec![("info".to_string(), f[..4].join(" "))];
+    for (i, a) in addrs.iter().enumerate() {
+        v.push((format!("utxos{}", i), c::get_utxos_all(a, network, &c::Filter::None, None)));
+        v.push((format!("balance{}", i), c::get_balance(a, network, None)));
+        v.push((format!("utxos{}c2", i), c::get_utxos_all(a, network, &c::Filter::MinConf(2), None)));
+        v.push((format!("balance{}c2", i), c::get_balance(a, network, Some(2))));
+    }
+    v.push(("headers".to_string(), c::get_headers(network, 0, None)));
+    (v, f[4].to_string())
+}
+
 pub struct Case {
+    pub pre_ingest: Option<(Vec<(String, String)>, String)>,
     pub walk: Option<Walk>,
     pub world: World,
     pub alive: Vec<usize>,
@@ -225,7 +241,7 @@ pub fn run_case(out: &mut Out, rng: &mut Rng, thorough: bool, case_no: u64) {
     let thr = *rng.pick(&[1u32, 1, 2, 2, 3, 4, 6, 144]);
     let mode = *rng.pick(&[DiffMode::Equal, DiffMode::Small, DiffMode::HeavyLight, DiffMode::Ties]);
     let world = World::new(network, rng);
-    let mut case = Case { walk: None, world, alive: vec![0], network, thr, mode };
+    let mut case = Case { pre_ingest: None, walk: None, world, alive: vec![0], network, thr, mode };
     c::fresh_init(network, thr as u128, None);
     out.begin_case(&format!("ledger net={} thr={} mode={}", c::net_name(network), thr, mode as u8));
     out.emit(
@@ -275,6 +291,11 @@ pub fn run_case(out: &mut Out, rng: &mut Rng, thorough: bool, case_no: u64) {
             let budget = if rng.chance(1, 2) { c::UNLIMITED } else { rng.range(0, 12) };
             // C03: the chain being served before the ingestion opportunity
             let before_height = c::stable_height();
+            let addrs = case.world.addresses();
+            if !paused && budget < c::UNLIMITED {
+                // C08: what every endpoint answers before this block's ingestion begins
+                case.pre_ingest = Some(observation_vector(network, &addrs));
+            }
             let served: Vec<String> = c::main_chain_hashes();
             let obs = c::ingest(budget);
             out.emit(&format!("c ingest {}", budget), &obs);
@@ -291,6 +312,23 @@ pub fn run_case(out: &mut Out, rng: &mut Rng, thorough: bool, case_no: u64) {
                 if k > 0 { out.count("advance:popped>0"); }
             }
             paused = obs == "paused";
+            if paused && c::stable_height() != before_height {
+                // an earlier anchor was popped in the same call: the snapshot predates that advance
+                case.pre_ingest = None;
+            }
+            if paused {
+                if let Some((pre, pre_len)) = &case.pre_ingest {
+                    let (cur, cur_len) = observation_vector(network, &addrs);
+                    let same = match pre.iter().zip(cur.iter()).find(|(a, b)| a.1 != b.1) {
+                        None => "same=1:-".to_string(),
+                        Some((a, _)) => format!("same=0:{}", a.0),
+                    };
+                    out.emit(&format!("c pausedsame {}", addrs.join(",")), &format!("{} len={}", same, (*pre_len == cur_len) as u8));
+                    out.count("pausedsame");
+                }
+            } else {
+                case.pre_ingest = None;
+            }
             if obs == "trap" {
                 // a native panic leaves partial effects behind (no rollback): the rest of the
                 // native run corresponds to no IC execution, so the case ends here
@@ -320,6 +358,57 @@ pub fn run_case(out: &mut Out, rng: &mut Rng, thorough: bool, case_no: u64) {
     }
 }
 
+/// Directed scenario (known finding F11, C06): one transaction with more than 256 outputs to one
+/// address; a page walk starts while its block is unstable and continues after it has stabilised.
+pub fn run_many_outputs_case(out: &mut Out, rng: &mut Rng) {
+    let network = Network::Regtest;
+    let thr = 3u32;
+    let world = World::new(network, rng);
+    let mut case = Case { pre_ingest: None, walk: None, world, alive: vec![0], network, thr, mode: DiffMode::Equal };
+    c::fresh_init(network, thr as u128, None);
+    out.begin_case("ledger many-outputs");
+    out.emit(&format!("c init regtest {} {}", thr, c::block_text(&case.world.nodes[0].block, network)), "-");
+    let plain = BlockOpts { max_txs: 0, max_outputs: 2, many_outputs: None, difficulty: 1, mine: false, time: None, bits: None };
+    let mut tip = 0usize;
+    let push = |out: &mut Out, case: &mut Case, rng: &mut Rng, parent: usize, opts: &BlockOpts| -> usize {
+        let idx = case.world.new_block(rng, parent, opts);
+        let block = case.world.nodes[idx].block.clone();
+        let text = c::block_text(&block, network);
+        out.emit(&format!("c push {}", text), &c::push_direct(block));
+        idx
+    };
+    let ingest = |out: &mut Out| {
+        let before = c::stable_height();
+        let served = c::main_chain_hashes();
+        out.emit(&format!("c ingest {}", c::UNLIMITED), &c::ingest(c::UNLIMITED));
+        let (h, root, pending) = can::with_state(|s| (s.stable_height(), hex::encode(can::state::get_block_hashes(s)[0].as_bytes()), s.unstable_blocks.verif_stable_child().is_some()));
+        let k = (h - before) as usize;
+        out.emit("c advance", &format!("popped={} onchain={} pending={}", k, served.get(k).map(|x| *x == root).unwrap_or(false) as u8, pending as u8));
+    };
+    tip = push(out, &mut case, rng, tip, &plain);
+    // block 2 carries one transaction with 300 outputs to pool address 0 (a P2PKH address)
+    let many = BlockOpts { many_outputs: Some((0, 300)), ..plain.clone() };
+    tip = push(out, &mut case, rng, tip, &many);
+    tip = push(out, &mut case, rng, tip, &plain);
+    tip = push(out, &mut case, rng, tip, &plain);
+    ingest(out); // genesis and block 1 stabilise; block 2 is the anchor (still unstable)
+    let addr = case.world.pool[0].text.clone().unwrap();
+    let limit = 200usize;
+    let r = c::get_utxos(&addr, network, &c::Filter::None, Some(limit));
+    out.emit(&format!("c walk start {} {}", addr, limit), &c::utxos_text(&r));
+    if let c::QRes::Ok(o) = r {
+        case.walk = Some(Walk { addr: addr.clone(), limit, next: o.next_page.clone(), tip: (o.tip_height, o.tip_hash.clone()), collected: o.utxos.clone(), same_tip: true, pages: 1 });
+    }
+    // block 2 stabilises while the walk's tip (block 4) stays in the tree
+    tip = push(out, &mut case, rng, tip, &plain);
+    let _ = tip;
+    ingest(out);
+    while case.walk.as_ref().map(|w| w.next.is_some()).unwrap_or(false) {
+        walk_step(out, rng, &mut case);
+    }
+    out.count("many-outputs-scenario");
+}
+
 pub fn run(out: &mut Out, ctx: &crate::Ctx) {
     for k in 0..ctx.cases {
         if let Some(only) = ctx.only_case {
@@ -328,6 +417,10 @@ pub fn run(out: &mut Out, ctx: &crate::Ctx) {
             }
         }
         let mut rng = Rng::new(ctx.seed.wrapping_mul(1_000_003).wrapping_add(k));
+        if k == 3 && ctx.shard % 4 == 0 {
+            run_many_outputs_case(out, &mut rng);
+            continue;
+        }
         run_case(out, &mut rng, ctx.thorough, k);
     }
 }
